@@ -10,7 +10,7 @@ SCR=$(mktemp -d /dev/shm/pv-mut-XXXXXX)
 trap 'rm -rf "$SCR"' EXIT
 cp -r /repo/placement "$SCR/placement"
 find "$SCR" -name __pycache__ -type d -prune -exec rm -rf {} +
-( cd "$SCR" && patch -p1 -s < "$PATCH" )
+( cd "$SCR" && patch -p1 -s < "$PATCH" ) || { echo "mutant-run rc=3 PATCH-DOES-NOT-APPLY"; exit 3; }
 set +e
 mkdir -p /dev/shm/pv-mutant-out
 PV_OUT_DIR=/dev/shm/pv-mutant-out PV_REPO="$SCR" "$@"
